@@ -521,6 +521,7 @@ class Eval:
         s.solver_checks = 0
         s.loop_inv = {}; s.loop_havoc = {}
         s.array_objs = {}
+        s.static_reads = []
         s.shadows = {}               # ast id of a wrap-free integer value -> (value, real-valued shadow)
         s.branch_preds = {}          # symbolic branch conditions met during evaluation (for automatic case splits)
 
@@ -745,6 +746,10 @@ class Eval:
                 continue
             key = (obj, key_of(path))
             s.accesses.append((mk_and([st.pc, g]), 'load', obj, path))
+            if obj.startswith('g:'):
+                gl = s.mod.globals.get(obj[2:])
+                if gl is not None and not gl['const'] and not gl['ext']:
+                    s.static_reads.append((mk_and([st.pc, g]), obj[2:]))      # mutable object with static storage defined in this unit
             stg = st if is_true(g) else State(st.pcl + [g], st.mem, st.env, st.cnt)   # obligations hold under this alternative's guard
             if key in st.mem: v = st.mem[key]
             else:
@@ -1500,14 +1505,14 @@ def abstract_nl(fs):
     return [walk(f) for f in keep]
 
 
-def ackermannize(fs, drop_bv=False):
+def ackermannize(fs, drop_bv=False, want_map=False):
     """generalise to pure real arithmetic (sound for proving): every uninterpreted-function application, every int->real
     conversion and every atom over bit-vectors becomes a fresh constant (congruence dropped)"""
     memo = {}; cache = {}
     def fresh(x):
         k = x.get_id(); r = cache.get(k)
-        if r is None: r = cache[k] = z3.Const('ack!%d' % len(cache), x.sort())
-        return r
+        if r is None: r = cache[k] = (x, z3.Const('ack!%d' % len(cache), x.sort()))
+        return r[1]
     def walk(x):
         k = x.get_id()
         if k in memo: return memo[k]
@@ -1524,7 +1529,9 @@ def ackermannize(fs, drop_bv=False):
             except Exception: r = x
         memo[k] = r; return r
     keep = [simplify(f) for f in fs]      # keep alive: memo is keyed by ast id
-    return [walk(f) for f in keep]
+    out = [walk(f) for f in keep]
+    if want_map: return out, cache, keep
+    return out
 
 
 def _solve(claim, assumptions, axioms, timeout, tactic, want_model=True):
@@ -1689,6 +1696,59 @@ def _has_bv(e, seen=None):
     return any(_has_bv(c, seen) for c in e.children())
 
 
+def guided_refute(fs, budget=12, seed=0):
+    """search for a counterexample by evaluating the (Ackermannised) negated claim on random small rational / integer points;
+    a candidate is only a hint: it is CONFIRMED by the exact solver query with every sampled term pinned to its value
+    (so the verdict 'refuted' is still the solver's, on the original formula). returns model dict or None"""
+    import random, fractions
+    rnd = random.Random(seed)
+    t0 = time.time()
+    afs, cache, keep = ackermannize(fs, drop_bv=False, want_map=True)
+    def consts_of(f):
+        out = {}
+        def coll(x, seen):
+            if x.get_id() in seen: return
+            seen.add(x.get_id())
+            if z3.is_const(x) and x.decl().kind() == z3.Z3_OP_UNINTERPRETED: out[x.get_id()] = x
+            for c in x.children(): coll(c, seen)
+        coll(f, set()); return out
+    main = afs[-1]                       # the negated claim; the other formulas are axioms / assumptions
+    cmain = consts_of(main)
+    cl = list(cmain.values())
+    if not cl or len(cl) > 400: return None
+    side = [f for f in afs[:-1] if set(consts_of(f)) <= set(cmain)]      # axioms fully determined by the sampled constants
+    rvals = [fractions.Fraction(a, b) for a in (-3, -2, -1, 1, 2, 3, 5, 7) for b in (1, 2, 3, 5)] + [fractions.Fraction(0)]
+    ivals = [-3, -2, -1, 0, 1, 2, 3, 4, 5, 13, 26, 29, 64, 82, 92, 120, 121]
+    origin = {c.get_id(): o for o, c in cache.values()}
+    tries = 0; confirmed = 0
+    while time.time() - t0 < budget and tries < 5000:
+        tries += 1
+        sub = []
+        for c in cl:
+            o = origin.get(c.get_id())
+            if is_real(c) and o is not None and z3.is_app(o) and o.decl().kind() == z3.Z3_OP_TO_REAL: v = RealVal(rnd.choice([-3, -2, -1, 0, 1, 2, 3, 5]))   # int -> real term
+            elif is_real(c) and o is not None and z3.is_app(o) and o.decl().name() in ('m_sin', 'm_cos'): v = RealVal(str(rnd.choice([x for x in rvals if abs(x) <= 1])))
+            elif is_real(c):
+                prev = [x for _, x in sub if is_real(x)]
+                if prev and rnd.random() < 0.25:
+                    # near-coincidences (threshold / degenerate-interval bugs): another sampled value plus a tiny offset
+                    v = simplify(rnd.choice(prev) + RealVal(str(rnd.choice([fractions.Fraction(0), fractions.Fraction(1, 10**9), fractions.Fraction(-1, 10**9), fractions.Fraction(1, 10**8)]))))
+                else: v = RealVal(str(rnd.choice(rvals)))
+            elif is_bv(c): v = BitVecVal(rnd.choice(ivals), c.size())
+            elif is_bool(c): v = BoolVal(rnd.random() < 0.5)
+            else: v = None
+            if v is not None: sub.append((c, v))
+        if not is_true(simplify(z3.substitute(main, *sub))): continue
+        if any(is_false(simplify(z3.substitute(f, *sub))) for f in side): continue
+        # candidate: confirm on the exact formulas with the sampled terms pinned (the solver completes the auxiliary symbols)
+        pins = [origin.get(c.get_id(), c) == v for c, v in sub]
+        res, m = hard(lambda: _solve(None, list(keep) + pins, (), 15, None), 15)
+        confirmed += 1
+        if res == 'sat': return m
+        if confirmed >= 4: break
+    return None
+
+
 def prove(claim, assumptions=(), axioms=(), timeout=60, tactic=None, abstract=True):
     """returns ('proved', None) / ('refuted', model dict) / ('unknown', reason); hard wall-clock limit.
     Stage 1: non-linear products/quotients abstracted to uninterpreted functions (QF_UFLRA+BV): unsat there proves the
@@ -1712,7 +1772,13 @@ def prove(claim, assumptions=(), axioms=(), timeout=60, tactic=None, abstract=Tr
             return _solve(None, fs, (), min(timeout, 20), None)
         res, m = hard(stage2b, min(timeout, 20))
         if res == 'unsat': return 'proved', None
-    res, m = hard(lambda: _solve(claim, assumptions, axioms, timeout, tactic), timeout)
+    res, m = hard(lambda: _solve(claim, assumptions, axioms, min(timeout, 40), tactic), min(timeout, 40))
+    if res not in ('unsat', 'sat'):
+        try:
+            cex = guided_refute(list(axioms) + list(assumptions) + [Not(claim)])
+        except Exception:
+            cex = None
+        if cex is not None: return 'refuted', cex
     return {'unsat': 'proved', 'sat': 'refuted'}.get(res, 'unknown'), m
 
 
